@@ -256,6 +256,9 @@ func c19Run(c c19Case) (*Violation, map[string]bool) {
 				return violation("C19", "not-logged-in-after-registration", "%s: without confirmation the new user %q must be logged in (session user %q)", step, pid, r.UID()), flags
 			}
 		}
+		if _, has := vals["password"]; !has {
+			flags["password-field-absent"] = true
+		}
 		for _, f := range rq.Fields {
 			switch f.K {
 			case "confirmed", "locked", "password_hash", "attempt_count", "totp_secret_key", "oauth2_uid":
@@ -302,7 +305,14 @@ func c19Gen(t *rapid.T) c19Case {
 		case 1:
 			cpw = ""
 		}
-		fields := []c19Field{{pidField, pid}, {"password", pw}}
+		var fields []c19Field
+		// missing fields: the key itself absent from the submission (not just empty)
+		if rapid.IntRange(0, 19).Draw(t, "haspid") > 0 {
+			fields = append(fields, c19Field{pidField, pid})
+		}
+		if rapid.IntRange(0, 7).Draw(t, "haspw") > 0 {
+			fields = append(fields, c19Field{"password", pw})
+		}
 		if rapid.IntRange(0, 9).Draw(t, "hasconfirm") > 0 {
 			fields = append(fields, c19Field{"confirm_password", cpw})
 		}
@@ -314,6 +324,9 @@ func c19Gen(t *rapid.T) c19Case {
 		}
 		for k := rapid.IntRange(0, 2).Draw(t, "ndup"); k > 0; k-- {
 			// duplicate of an existing field with a different value, before or after the original
+			if len(fields) == 0 {
+				break
+			}
 			src := fields[rapid.IntRange(0, len(fields)-1).Draw(t, "dupof")]
 			dup := c19Field{src.K, pick(t, "dupval", "other@x.io", "Passw0rd!Z", "", "zzz", src.V)}
 			if rapid.Bool().Draw(t, "dupfirst") {
